@@ -94,8 +94,18 @@ class C15(Prop):
             ctx.skip('nodes collapsed to duplicates after rounding')
         x = list(nodes) if case.get('as_list') else np.array(nodes, dtype=float)
         with ctx.lib('no-exception', 'fd_weights_all(len=%d, n=%d)' % (m, n)):
-            w_all = np.array(ndf.fd_weights_all(x, x0, n))
+            raw = ndf.fd_weights_all(x, x0, n)
+            w_all = np.array(raw)
             w_n = np.array(ndf.fd_weights(x, x0, n))
+            # the returned table belongs to the caller: rescaling it in place (weights for a scaled
+            # grid) must not change what the same request returns afterwards
+            again = None
+            if isinstance(raw, np.ndarray) and raw.flags.writeable:
+                raw *= -1000.0
+                again = np.array(ndf.fd_weights_all(x, x0, n))
+        if again is not None and not (again.shape == w_all.shape and np.array_equal(again, w_all, equal_nan=True)):
+            raise Violation('repeat', 'fd_weights_all returns different weights for the same request after the '
+                            'first result was modified in place by the caller')
         if w_all.shape != (n + 1, m):
             raise Violation('shape', 'fd_weights_all returned shape %s, expected %s' % (w_all.shape, (n + 1, m)))
         if not (w_n.shape == (m,) and np.array_equal(w_n, w_all[-1], equal_nan=True)):
